@@ -16,7 +16,7 @@ RULE_DEFAULTS = dict(comps=[], counter="always", mod=1, rem=0, after=0, needs_sa
 EV_DEFAULTS = dict(
     env=0, obs=[-1, -1, -1], next=[-1, -1, -1], act="none", r4=0, term=False, trunc=False, after_end=False,
     box=False, a=[], lo=[], hi=[], finite=True, valid=True, n=0, key="", changed=[], step=-1,
-    chosen=-1, argmax=[], current=True, auto=False, chk_next=True, chk_term=True, has_trunc=False, table_current=True, start=-1, same=[], rel=[], rows=[],
+    chosen=-1, argmax=[], current=True, auto=False, chk_next=True, chk_term=True, has_trunc=False, table_current=True, start=-1, same=[], rel=[], rows=[], aliased=[],
 )
 
 
@@ -29,7 +29,7 @@ def normalise(trace):
     evs = []
     for e in trace["events"]:
         n = dict(EV_DEFAULTS)
-        for k in ("ev", "env", "obs", "next", "r4", "term", "trunc", "after_end", "n", "key", "step", "chosen", "argmax", "current", "auto", "chk_next", "chk_term", "table_current", "start", "same", "rel", "rows"):
+        for k in ("ev", "env", "obs", "next", "r4", "term", "trunc", "after_end", "n", "key", "step", "chosen", "argmax", "current", "auto", "chk_next", "chk_term", "table_current", "start", "same", "rel", "rows", "aliased"):
             if k in e:
                 n[k] = e[k]
         if "act" in e:
